@@ -212,3 +212,34 @@ def is_zero_bytes(t):
     if t.op == "agg" and t.args[0] == "array":
         return len(t.args) > 1 and all(is_t(a) and a.op == "int" and a.args[0] == 0 for a in t.args[1:])
     return False
+
+
+def role_id(t):
+    """identity of a derived value among its siblings: element k of the derived vector -> ("idx", k); a PRF output whose
+    transcript absorbs a distinguishing constant c (derive(0), derive(1), ...) -> ("const", c); None otherwise"""
+    n = 0
+    while is_t(t) and t.op in ("refv", "conv", "copied", "deref") and n < 8:
+        t = t.args[0]
+        n += 1
+    if not is_t(t):
+        return None
+    if t.op == "index" and is_t(t.args[1]) and t.args[1].op == "int":
+        return ("idx", t.args[1].args[0])
+    if t.op == "owf":
+        consts = []
+        for k, d, _ in Q.flat_ops(Q.trace_of(t.args[1])):
+            if k in ("ad", "meta_ad", "key") and is_t(d):
+                dd = d
+                while dd.op in ("refv", "conv") and len(dd.args) == 1:
+                    dd = dd.args[0]
+                def cint(a):
+                    while is_t(a) and a.op == "cast" and is_t(a.args[0]):
+                        a = a.args[0]
+                    return a.args[0] if is_t(a) and a.op == "int" else None
+                if dd.op == "agg" and dd.args[0] == "array" and len(dd.args) >= 2 and all(cint(a) is not None for a in dd.args[1:]):
+                    consts.append(tuple(cint(a) for a in dd.args[1:]))
+                elif dd.op == "int":
+                    consts.append((dd.args[0],))
+        if len(consts) == 1:
+            return ("const", consts[0])
+    return None
